@@ -68,6 +68,17 @@ func VH_C10_value() {
 		return
 	}
 	vAssert(v != nil, "decoded-value-not-nil")
+	// two decodings of one document are distinct values that compare without crashing
+	if v2, err2 := VMValueFromJSON([]byte(doc)); err2 == nil && v2 != nil {
+		_ = ValueEqual(v, v2, true)
+		_ = ValueEqual(NewArrayVal(v), NewArrayVal(v2), true)
+		vm := vNewVM()
+		vm.Config.OpCountLimit = 30000
+		vm.Attrs.Store("x", v)
+		vm.Attrs.Store("y", v2)
+		vObserveAll(vm, vm.Run("x == y"))
+		vObserveAll(vm, vm.Run("{'k': x} == {'k': y}"))
+	}
 	ns := vParam("scripts", 8)
 	script := vC10Scripts[vChoice("script", ns)]
 	vC10Battery(v, script)
